@@ -1,1 +1,250 @@
-(* placeholder: to be written *)
+(** Proofs about Model/MetaStaking.v (property C15).
+
+    Everything here is RELATIVE TO THE ENVIRONMENT INTERFACE of the model: the farms' and the pair's
+    answers are arguments of the operations.  Theorems quantify over ALL answers (only non-negativity
+    of amounts, [env_nonneg], is required: they are BigUint) unless a law L1-L7 is named as a
+    hypothesis.  Sections:
+      1  ledger primitives (what each credit / debit / release / mint changes)
+      2  the backing invariant [Inv] and its preservation by every operation, over all histories
+      3  parts: floor characterisation of into_part, released parts never exceed the whole
+      4  unstake: outputs and ledger deltas
+      5  safe price: the value registered in the staking farm is the pair's safe-price answer
+      6  the interface laws as lemmas of the callee models where such a model exists
+         (L1-L3: Model/Farm.v, L6: Model/Pair.v, L7: Model/SafePrice.v + C13) *)
+From MX Require Import Base.Prelude Gen.Params Model.MetaStaking.
+
+(** ================================================================== 1. primitives *)
+Lemma aget_aset l k v k' : aget (aset l k v) k' = if k =? k' then v else aget l k'.
+Proof.
+  destruct (k =? k') eqn:E.
+  - apply Z.eqb_eq in E. subst. apply aget_aset_same.
+  - apply Z.eqb_neq in E. apply aget_aset_other. exact E.
+Qed.
+
+Lemma find_attr_in l n a : find_attr l n = Some a -> In (n, a) l.
+Proof.
+  induction l as [|[k b] t IH]; simpl; [discriminate|].
+  destruct (k =? n) eqn:E.
+  - intros H. inversion H; subst. apply Z.eqb_eq in E. subst. auto.
+  - intros H. right. auto.
+Qed.
+
+Lemma find_attr_none l n : find_attr l n = None -> ~ In n (map fst l).
+Proof.
+  induction l as [|[k b] t IH]; simpl; [tauto|].
+  destruct (k =? n) eqn:E; [discriminate|].
+  intros H [Hk|Hin]; [apply Z.eqb_neq in E; contradiction | apply IH; assumption].
+Qed.
+
+Lemma in_find_attr l n a : NoDup (map fst l) -> In (n, a) l -> find_attr l n = Some a.
+Proof.
+  induction l as [|[k b] t IH]; simpl; intros Hnd Hin; [contradiction|].
+  inversion Hnd as [|? ? Hni Hnd']; subst.
+  destruct Hin as [Heq|Hin].
+  - inversion Heq; subst. rewrite Z.eqb_refl. reflexivity.
+  - destruct (k =? n) eqn:E.
+    + apply Z.eqb_eq in E. subst. exfalso. apply Hni. change n with (fst (n, a)). apply in_map. exact Hin.
+    + auto.
+Qed.
+
+Lemma find_attr_app l n x : find_attr (l ++ [x]) n =
+  match find_attr l n with Some a => Some a | None => if fst x =? n then Some (snd x) else None end.
+Proof.
+  induction l as [|[k b] t IH]; simpl.
+  - destruct x as [k a]. reflexivity.
+  - destruct (k =? n); [reflexivity | exact IH].
+Qed.
+
+(** sums over the dual-yield nonces ever created *)
+Definition wsum (f : Z -> dattr -> Z) (l : list (Z * dattr)) : Z :=
+  fold_right (fun na acc => f (fst na) (snd na) + acc) 0 l.
+
+Lemma wsum_ext f g l : (forall n a, In (n, a) l -> f n a = g n a) -> wsum f l = wsum g l.
+Proof.
+  induction l as [|[n a] t IH]; simpl; intros H; [reflexivity|].
+  rewrite (H n a) by auto. rewrite IH by (intros; apply H; auto). reflexivity.
+Qed.
+
+Lemma wsum_app f l x : wsum f (l ++ [x]) = wsum f l + f (fst x) (snd x).
+Proof. induction l as [|[n a] t IH]; simpl; [lia | rewrite IH; lia]. Qed.
+
+Lemma wsum_change f g l n a d : NoDup (map fst l) -> In (n, a) l ->
+  g n a = f n a - d -> (forall m b, In (m, b) l -> m <> n -> g m b = f m b) ->
+  wsum g l = wsum f l - d.
+Proof.
+  induction l as [|[k b] t IH]; simpl; intros Hnd Hin Hn Ho; [contradiction|].
+  inversion Hnd as [|? ? Hni Hnd']; subst.
+  destruct Hin as [Heq|Hin].
+  - inversion Heq; subst. rewrite Hn.
+    rewrite (wsum_ext g f t); [lia|].
+    intros m c Hm. apply Ho; [auto|]. intros ->. apply Hni. change n with (fst (n, c)). apply in_map. exact Hm.
+  - assert (k <> n) by (intros ->; apply Hni; change n with (fst (n, a)); apply in_map; exact Hin).
+    rewrite (Ho k b) by auto. rewrite (IH Hnd' Hin Hn) by (intros; apply Ho; auto). lia.
+Qed.
+
+Lemma wsum_nonneg f l : (forall n a, In (n, a) l -> 0 <= f n a) -> 0 <= wsum f l.
+Proof.
+  induction l as [|[n a] t IH]; simpl; intros H; [lia|].
+  pose proof (H n a (or_introl eq_refl)). assert (0 <= wsum f t) by (apply IH; intros; apply H; auto). lia.
+Qed.
+
+Lemma wsum_ge_term f l n a : (forall m b, In (m, b) l -> 0 <= f m b) -> In (n, a) l -> f n a <= wsum f l.
+Proof.
+  induction l as [|[k b] t IH]; simpl; intros H Hin; [contradiction|].
+  assert (0 <= wsum f t) by (apply wsum_nonneg; intros; apply H; auto).
+  destruct Hin as [Heq|Hin].
+  - inversion Heq; subst. lia.
+  - pose proof (H k b (or_introl eq_refl)). assert (f n a <= wsum f t) by (apply IH; auto). lia.
+Qed.
+
+(** the three sub-ledgers a primitive may leave untouched *)
+Definition eq_dy (s s' : st) : Prop :=
+  s_attrs s' = s_attrs s /\ s_sup s' = s_sup s /\ s_rel s' = s_rel s /\ s_hold s' = s_hold s /\ s_next s' = s_next s.
+Definition eq_farm (s s' : st) : Prop := s_lpf s' = s_lpf s /\ s_sf s' = s_sf s.
+Definition eq_fung (s s' : st) : Prop := s_fung s' = s_fung s.
+
+Lemma credit_f_spec s t x :
+  eq_dy s (credit_f s t x) /\ eq_farm s (credit_f s t x) /\
+  forall t', fbal (credit_f s t x) t' = fbal s t' + (if t =? t' then x else 0).
+Proof.
+  repeat split. intros t'. unfold fbal, credit_f. simpl. rewrite aget_aset. unfold fbal.
+  destruct (t =? t') eqn:E; [apply Z.eqb_eq in E; subst; lia | lia].
+Qed.
+
+Lemma debit_f_spec s t x s' : debit_f s t x = Ok s' ->
+  eq_dy s s' /\ eq_farm s s' /\ x <= fbal s t /\
+  forall t', fbal s' t' = fbal s t' - (if t =? t' then x else 0).
+Proof.
+  unfold debit_f. intros H. apply bind_ok in H. destruct H as (b & Hb & H). inversion H; subst. clear H.
+  apply sub_chk_ok in Hb. destruct Hb as [Hle ->].
+  repeat split; [exact Hle|]. intros t'. unfold fbal. simpl. rewrite aget_aset.
+  destruct (t =? t') eqn:E; [apply Z.eqb_eq in E; subst; unfold fbal; lia | lia].
+Qed.
+
+Lemma credit_sf_spec s k x :
+  eq_dy s (credit_sf s k x) /\ eq_fung s (credit_sf s k x) /\ s_lpf (credit_sf s k x) = s_lpf s /\
+  forall k', sf_bal (credit_sf s k x) k' = sf_bal s k' + (if k =? k' then x else 0).
+Proof.
+  repeat split. intros k'. unfold sf_bal, credit_sf. simpl. rewrite aget_aset. unfold sf_bal.
+  destruct (k =? k') eqn:E; [apply Z.eqb_eq in E; subst; lia | lia].
+Qed.
+
+Lemma credit_lpf_spec s k x :
+  eq_dy s (credit_lpf s k x) /\ eq_fung s (credit_lpf s k x) /\ s_sf (credit_lpf s k x) = s_sf s /\
+  forall k', lpf_bal (credit_lpf s k x) k' = lpf_bal s k' + (if k =? k' then x else 0).
+Proof.
+  repeat split. intros k'. unfold lpf_bal, credit_lpf. simpl. rewrite aget_aset. unfold lpf_bal.
+  destruct (k =? k') eqn:E; [apply Z.eqb_eq in E; subst; lia | lia].
+Qed.
+
+Lemma debit_sf_spec s k x s' : debit_sf s k x = Ok s' ->
+  eq_dy s s' /\ eq_fung s s' /\ s_lpf s' = s_lpf s /\ x <= sf_bal s k /\
+  forall k', sf_bal s' k' = sf_bal s k' - (if k =? k' then x else 0).
+Proof.
+  unfold debit_sf. intros H. apply bind_ok in H. destruct H as (b & Hb & H). inversion H; subst. clear H.
+  apply sub_chk_ok in Hb. destruct Hb as [Hle ->].
+  repeat split; [exact Hle|]. intros k'. unfold sf_bal. simpl. rewrite aget_aset.
+  destruct (k =? k') eqn:E; [apply Z.eqb_eq in E; subst; unfold sf_bal; lia | lia].
+Qed.
+
+Lemma debit_lpf_spec s k x s' : debit_lpf s k x = Ok s' ->
+  eq_dy s s' /\ eq_fung s s' /\ s_sf s' = s_sf s /\ x <= lpf_bal s k /\
+  forall k', lpf_bal s' k' = lpf_bal s k' - (if k =? k' then x else 0).
+Proof.
+  unfold debit_lpf. intros H. apply bind_ok in H. destruct H as (b & Hb & H). inversion H; subst. clear H.
+  apply sub_chk_ok in Hb. destruct Hb as [Hle ->].
+  repeat split; [exact Hle|]. intros k'. unfold lpf_bal. simpl. rewrite aget_aset.
+  destruct (k =? k') eqn:E; [apply Z.eqb_eq in E; subst; unfold lpf_bal; lia | lia].
+Qed.
+
+(** ------------------------------------------------------------------ into_part *)
+Lemma dy_part_spec a p part : dy_part a p = Ok part ->
+  d_lpn part = d_lpn a /\ d_sfn part = d_sfn a /\ d_sfa part = p /\
+  ((p = d_sfa a /\ d_lpa part = d_lpa a) \/
+   (p <> d_sfa a /\ d_sfa a <> 0 /\ d_lpa part = d_lpa a * p / d_sfa a /\ d_lpa part <> 0)).
+Proof.
+  unfold dy_part. destruct (p =? d_sfa a) eqn:E.
+  - intros H. inversion H; subst. apply Z.eqb_eq in E. subst. auto 6.
+  - intros H. apply bind_ok in H. destruct H as (l & Hl & H). inversion H; subst. clear H. simpl.
+    apply Z.eqb_neq in E. repeat split; try reflexivity. right.
+    unfold rule3_nz in Hl. rewrite (proj2 (Z.eqb_neq _ _) E) in Hl.
+    apply bind_ok in Hl. destruct Hl as (r & Hr & Hl).
+    apply div_chk_ok in Hr. destruct Hr as [Hnz ->].
+    destruct (d_lpa a * p / d_sfa a =? 0) eqn:Ez; simpl in Hl; [discriminate|].
+    inversion Hl; subst. apply Z.eqb_neq in Ez. auto.
+Qed.
+
+(** ------------------------------------------------------------------ release *)
+Record released (s s' : st) (c n p : Z) (a part : dattr) : Prop := mkReleased {
+  rl_attr : find_attr (s_attrs s) n = Some a;
+  rl_part : dy_part a p = Ok part;
+  rl_pos : 0 < p;
+  rl_hold_le : p <= hold s n c;
+  rl_sup_le : p <= sup s n;
+  rl_attrs : s_attrs s' = s_attrs s;
+  rl_next : s_next s' = s_next s;
+  rl_sup : forall m, sup s' m = if n =? m then sup s n - p else sup s m;
+  rl_rel : forall m, rel s' m = if n =? m then rel s n + d_lpa part else rel s m;
+  rl_hold : forall key, aget (s_hold s') key = if hkey n c =? key then hold s n c - p else aget (s_hold s) key;
+  rl_lpf : forall k, lpf_bal s' k = lpf_bal s k - (if d_lpn a =? k then d_lpa part else 0);
+  rl_sf : forall k, sf_bal s' k = sf_bal s k - (if d_sfn a =? k then p else 0);
+  rl_lpf_le : d_lpa part <= lpf_bal s (d_lpn a);
+  rl_sf_le : p <= sf_bal s (d_sfn a);
+  rl_fung : s_fung s' = s_fung s
+}.
+
+Lemma release_spec s c n p s' part : release s c n p = Ok (s', part) ->
+  exists a, released s s' c n p a part.
+Proof.
+  unfold release. intros H.
+  destruct (0 <? p) eqn:Ep; [|discriminate]. apply Z.ltb_lt in Ep.
+  apply bind_ok in H. destruct H as (h & Hh & H). apply sub_chk_ok in Hh. destruct Hh as [Hhle ->].
+  apply bind_ok in H. destruct H as (su & Hsu & H). apply sub_chk_ok in Hsu. destruct Hsu as [Hsle ->].
+  apply bind_ok in H. destruct H as (a & Ha & H).
+  unfold get_attr in Ha. destruct (find_attr (s_attrs s) n) as [a0|] eqn:Ef; [|discriminate]. inversion Ha; subst a0. clear Ha.
+  apply bind_ok in H. destruct H as (pt & Hpt & H).
+  apply bind_ok in H. destruct H as (s2 & H2 & H).
+  apply bind_ok in H. destruct H as (s3 & H3 & H). inversion H; subst s3 pt. clear H.
+  pose proof (dy_part_spec _ _ _ Hpt) as (Pn & Psn & Psa & _).
+  apply debit_lpf_spec in H2. destruct H2 as (D2 & F2 & S2 & L2 & B2).
+  apply debit_sf_spec in H3. destruct H3 as (D3 & F3 & S3 & L3 & B3).
+  destruct D2 as (A2 & U2 & R2 & O2 & N2). destruct D3 as (A3 & U3 & R3 & O3 & N3).
+  exists a. constructor; try assumption.
+  - rewrite A3, A2. reflexivity.
+  - rewrite N3, N2. reflexivity.
+  - intros m. unfold sup. rewrite U3, U2. simpl. rewrite aget_aset. reflexivity.
+  - intros m. unfold rel. rewrite R3, R2. simpl. rewrite aget_aset. reflexivity.
+  - intros key. rewrite O3, O2. simpl. rewrite aget_aset. reflexivity.
+  - intros k. unfold lpf_bal in *. rewrite S3, B2, Pn. reflexivity.
+  - intros k. unfold sf_bal in *. rewrite B3, S2, Psn, Psa. reflexivity.
+  - rewrite <- Pn. exact L2.
+  - unfold sf_bal in *. rewrite S2, Psn, Psa in L3. exact L3.
+  - rewrite F3, F2. reflexivity.
+Qed.
+
+(** ------------------------------------------------------------------ mint *)
+Record minted (s s' : st) (c : Z) (a : dattr) (n : Z) : Prop := mkMinted {
+  mt_pos : 0 < d_sfa a;
+  mt_n : n = s_next s + 1;
+  mt_attrs : s_attrs s' = s_attrs s ++ [(n, a)];
+  mt_next : s_next s' = n;
+  mt_sup : forall m, sup s' m = if n =? m then sup s n + d_sfa a else sup s m;
+  mt_rel : forall m, rel s' m = rel s m;
+  mt_hold : forall key, aget (s_hold s') key = if hkey n c =? key then hold s n c + d_sfa a else aget (s_hold s) key;
+  mt_lpf : forall k, lpf_bal s' k = lpf_bal s k + (if d_lpn a =? k then d_lpa a else 0);
+  mt_sf : forall k, sf_bal s' k = sf_bal s k + (if d_sfn a =? k then d_sfa a else 0);
+  mt_fung : s_fung s' = s_fung s
+}.
+
+Lemma mint_spec s c a s' n : mint_dy s c a = Ok (s', n) -> minted s s' c a n.
+Proof.
+  unfold mint_dy. destruct (0 <? d_sfa a) eqn:E; [|discriminate]. apply Z.ltb_lt in E.
+  intros H. inversion H; subst. clear H.
+  constructor; try reflexivity; try assumption.
+  - intros m. unfold sup. simpl. rewrite aget_aset. reflexivity.
+  - intros key. simpl. rewrite aget_aset. reflexivity.
+  - intros k. unfold lpf_bal. simpl. rewrite aget_aset. unfold lpf_bal. simpl.
+    destruct (d_lpn a =? k) eqn:Ek; [apply Z.eqb_eq in Ek; subst; lia | lia].
+  - intros k. unfold sf_bal. simpl. rewrite aget_aset. unfold sf_bal. simpl.
+    destruct (d_sfn a =? k) eqn:Ek; [apply Z.eqb_eq in Ek; subst; lia | lia].
+Qed.
